@@ -508,16 +508,19 @@ pub fn builders_keys(syms: &Syms, bk: &BuildersKeys) -> Value {
 /// fields; the class is the variant name taken from the Debug form, the text is Display.
 /// the double-quoted segments of an error text (key paths and locale names are printed quoted)
 pub fn quoted_segments(text: &str) -> Vec<String> {
+    // whatever a message puts between a pair of ", ` or ' (the wording and the quoting style of messages are not part of any property)
     let mut out = vec![];
-    let mut cur: Option<String> = None;
-    for c in text.chars() {
-        if c == '"' {
-            match cur.take() {
-                Some(s) => out.push(s),
-                None => cur = Some(String::new()),
+    for q in ['"', '`', '\''] {
+        let mut cur: Option<String> = None;
+        for c in text.chars() {
+            if c == q {
+                match cur.take() {
+                    Some(s) => out.push(s),
+                    None => cur = Some(String::new()),
+                }
+            } else if let Some(s) = cur.as_mut() {
+                s.push(c);
             }
-        } else if let Some(s) = cur.as_mut() {
-            s.push(c);
         }
     }
     out
